@@ -276,8 +276,14 @@ def check(ctx, rep):
                         params = callee.params[1:]
                         passed = dict(zip(params, n.args))
                         passed.update({k.arg: k.value for k in n.keywords if k.arg})
-                        nn = {p_ for p_, a_ in passed.items() if is_stat(a_) or isinstance(a_, (ast.Tuple, ast.List, ast.Dict, ast.JoinedStr))
-                              or (isinstance(a_, ast.Constant) and a_.value is not None)}
+                        def _val(a_):
+                            if isinstance(a_, ast.Name):
+                                defs_ = [s_.value for s_ in ast.walk(fn.node) if isinstance(s_, ast.Assign) and any(isinstance(t_, ast.Name) and t_.id == a_.id for t_ in s_.targets)]
+                                if len(defs_) == 1:
+                                    return defs_[0]
+                            return a_
+                        nn = {p_ for p_, a_ in passed.items() if is_stat(_val(a_)) or isinstance(_val(a_), (ast.Tuple, ast.List, ast.Dict, ast.JoinedStr))
+                              or (isinstance(_val(a_), ast.Constant) and _val(a_).value is not None)}
                         scan(callee, nn, depth + 1)
 
         scan(pv, set(), 0)
